@@ -178,7 +178,23 @@ func TestCross(t *testing.T) {
 			}
 		}
 	}
-	ev.R().Sub(ev.SubRun{Name: "cross", Bound: "3 fixed tables x 8 renderers x 10 error values x {plain, rich writer}, every write index x 3 failure modes of each", Cases: faultPoints, Exhaustive: true})
+	// one table whose output runs to tens of kilobytes (past any 4, 8, 16 or 32 KiB buffer), under every renderer,
+	// plain and rich writer, two error values; fault points sampled as in evalAll
+	for _, st := range Styles {
+		for _, ek := range []string{"", "eof"} {
+			for _, rich := range []bool{false, true} {
+				i++
+				if i%shards != shard {
+					continue
+				}
+				c := Case{Script: gen.Script{Ops: tables[0]}, Style: st, Err: ek, Rich: rich, Repeat: 250}
+				if v := evalAll(c); v != nil {
+					t.Fatalf("VIOLATION %s (detail in the replay file)", ID)
+				}
+			}
+		}
+	}
+	ev.R().Sub(ev.SubRun{Name: "cross", Bound: "3 fixed tables x 8 renderers x 10 error values x {plain, rich writer}, every write index x 3 failure modes of each; plus one table of 750 rows (tens of KiB of output) x 8 renderers x 2 error values x {plain, rich}, sampled write indices", Cases: faultPoints, Exhaustive: true})
 }
 
 func TestProp(t *testing.T) {
